@@ -86,6 +86,16 @@ def enumerated(tier):
               continue
             yield {'k': 't', 'pos': pos, 'timeout': tmo, 'end': end,
                    'repeat': rep, 'own': own}
+  # the station's default time-out was set after import (what the flag
+  # --phase_default_timeout_s does); phases without timeout_s use that value
+  for pos in POSITIONS:
+    for end in ENDS:
+      for rep in (False, True):
+        for dflt in (7, 1):
+          if tier == 'quick' and dflt == 1 and end not in ('-eps', '+eps', 'never'):
+            continue
+          yield {'k': 't', 'pos': pos, 'timeout': None, 'end': end, 'repeat': rep,
+                 'own': 'C', 'default': dflt}
   # the phase after the timed-out one (a teardown phase) ends terminally too
   for pos in ('main', 'teardown'):
     for end in ('never', 'unkillable', '+P+eps'):
@@ -122,6 +132,10 @@ def run_timing(case):
   P, default = _S['P'], _S['default']
   viol = []
   c = {'timing_cases': 1, 'timeouts_observed': 0, 'own_results_kept': 0}
+  if case.get('default') is not None:
+    default = case['default']
+    _S['pe'].DEFAULT_PHASE_TIMEOUT_S = default
+    c['default_timeout_set_after_import'] = 1
   d = default if case['timeout'] is None else case['timeout']
   end = case['end']
   dur = {'-2P': d - 2 * P, '-eps': d - EPS, '+eps': d + EPS,
@@ -275,6 +289,7 @@ def run_timing(case):
     else:
       t.execute()
   finally:
+    _S['pe'].DEFAULT_PHASE_TIMEOUT_S = _S['default']
     if prof:
       try:
         os.unlink(prof)
@@ -288,7 +303,7 @@ def run_timing(case):
     pm.prune_handlers()
   wall = time.monotonic() - wall0
   ctx = {'case': {k: case.get(k) for k in ('pos', 'timeout', 'end', 'repeat', 'own',
-                                           'profile', 'after_raises')},
+                                           'profile', 'after_raises', 'default')},
          'deadline': d, 'P': P}
 
   def bad(mech, **k):
